@@ -101,6 +101,26 @@ impl Builder {
         })
     }
 
+    /// Verification hook: a `Builder` over a caller-supplied gRPC channel (in-memory transport).
+    #[cfg(feature = "verif")]
+    pub(in crate::relayer) fn new_with_channel(
+        configured_celestia_chain_id: String,
+        default_min_gas_price: f64,
+        grpc_channel: Channel,
+        signing_keys: CelestiaKeys,
+        state: Arc<State>,
+    ) -> Result<Self, Box<BuilderError>> {
+        let address = bech32_encode(&signing_keys.address)?;
+        Ok(Self {
+            configured_celestia_chain_id,
+            default_min_gas_price,
+            grpc_channel,
+            signing_keys,
+            address,
+            state,
+        })
+    }
+
     /// Returns a new `CelestiaClient` initialized with info retrieved from the Celestia app.
     #[instrument(skip_all, err)]
     pub(in crate::relayer) async fn try_build(self) -> Result<CelestiaClient, BuilderError> {
